@@ -217,10 +217,9 @@ func checkC16(x *X, c *Case, strict bool) *Outcome {
 	if refU.Stats.ReentrySame {
 		return &Outcome{Discard: true}
 	}
-	if !diverges {
-		if ex := knownExclusion(x, refU, strict); ex != "" {
-			return &Outcome{Excluded: ex}
-		}
+	// (a diverging reference run still carries the statistics of the part it evaluated)
+	if ex := knownExclusion(x, refU, strict); ex != "" {
+		return &Outcome{Excluded: ex}
 	}
 	o := &Outcome{}
 	if diverges {
@@ -294,7 +293,7 @@ func checkC16(x *X, c *Case, strict bool) *Outcome {
 			if !memo {
 				// the reference with the same budget predicts the complete outcome
 				rb := refpeg.Eval(g, c.Input, refOpts(&cc))
-				if !rb.OverBudget {
+				if !rb.OverBudget && knownExclusion(x, rb, strict) == "" {
 					if d := compareErrors(rb, resp, ctx); d != "" {
 						o.Viol = viol(pk, &cc, "budget_outcome", d, describeRef(rb), describeResp(resp))
 						return o
